@@ -443,6 +443,11 @@ def jobs(tier, seed):
         for Nh in (1, 2, 3):
             for per in (False, True):
                 add('hankel', T=5, pa=pa, Nh=Nh, periodic=per)
+    # Hankel matrices that wrap around the lattice more than once (2 (N - 1) > T) and degenerate sizes
+    for T_, Nh in ((3, 3), (2, 3), (2, 2), (3, 4), (4, 4)):
+        for per in (False, True):
+            add('hankel', T=T_, pa=(True,) * T_, Nh=Nh, periodic=per)
+    add('hankel', T=3, pa=(True, False, True), Nh=3, periodic=True)
     add('repr', T=4, pa=(True, False, True, True), kind='none')
     add('repr', T=4, pa=(True, False, True, True), kind='sym')
     add('repr', T=3, pa=(True, True, True), kind='sym')
